@@ -11,8 +11,6 @@ CONFIGS = [("default", {}, "harness"), ("noavx512", {"GODEBUG": "cpu.avx512=off"
 def run(ctx):
     # (MC) design-level model checking, independent of the code under test
     ctx.model_check("C01_field", "MCFieldMachine", workers=8, heap="4g")
-    ctx.model_check("C01_field", "MCMontgomery", workers=8, heap="4g")
-    ctx.model_check("C01_field", "MCMontgomery", cfg="MCMontgomeryNeg", expect_violation="MulCorrect", workers=4)
     # (TV) traces of the real code in every CPU configuration
     bins = {"harness": ctx.build_harness("harness"), "harness_purego": ctx.build_harness("harness_purego", tags=("verif", "purego"))}
     tdir = os.path.join(ctx.work, "traces")
